@@ -170,6 +170,10 @@ def cop(o):
         return "(OpSetRef %s %s)" % (cnat(o[1]), cval(o[2]))
     if t == "recalc":
         return "(OpSetRecalc %s)" % cbool(o[1])
+    if t == "tracecycle":
+        # mx.start_stacktrace(); mx.stop_stacktrace(): no effect on the session; tied as setting the recalculation
+        # option to the value it has (o[1], filled in by the generator)
+        return "(OpSetRecalc %s)" % cbool(o[1])
     raise ValueError(o)
 
 
@@ -408,6 +412,7 @@ def gen_ops(g, w, n, weights):
     cached_state = {c["cid"]: c["cached"] for c in w["cells"]}
     cur = {c["cid"]: c for c in w["cells"]}
     fell_back = set()
+    recalc_now = [False]
     toggles = "setallow" in weights and r.random() < 0.3     # a quarter of the histories may switch allow_none ((P)-only)
     def emit_setf(c):
             w2 = {"nspaces": w["nspaces"], "cells": [cur[i] for i in range(len(cur))], "refs": w["refs"]}
@@ -465,6 +470,9 @@ def gen_ops(g, w, n, weights):
             c = r.choice(cands)
             nc = dict(c); nc["allow_none"] = not c["allow_none"]; cur[c["cid"]] = nc
             ops.append(["setallow", c["cid"], nc["allow_none"]])
+        elif k == "tracecycle":
+            # seeded/C05_r5: a stack-trace session in between must not change the configured recursion limit
+            ops.append(["tracecycle", recalc_now[0]])
         elif k == "setref" and w["refs"]:
             rr = r.choice(w["refs"])
             ops.append(["setref", rr["rid"], g.val()])
@@ -506,7 +514,8 @@ def gen_ops(g, w, n, weights):
                 continue
             a, b, u, l = r.sample(cands, 4) if r.random() < 0.3 else cands[:2] + cands[-2:]
             a, b, u, l = sorted([a, b, u, l], key=lambda x: x["cid"])
-            for x, flag in ((a, True), (b, True), (u, False), (l, True)):
+            # half of the time pv is uncached too (seeded/C06_r5): TWO uncached levels between total and the held rate
+            for x, flag in ((a, True), (b, r.random() < 0.5), (u, False), (l, True)):
                 if cached_state[x["cid"]] != flag:
                     cached_state[x["cid"]] = flag
                     nx_ = dict(cur[x["cid"]]); nx_["cached"] = flag; cur[x["cid"]] = nx_
@@ -582,7 +591,7 @@ def gen_ops(g, w, n, weights):
             # dependents is that of a set, and a failure stops the loop (which ones were recomputed is not determined)
             for x in cur.values():
                 ops.append(["clear", x["cid"]])
-            ops.append(["recalc", True])
+            ops.append(["recalc", True]); recalc_now[0] = True
             ops.append(["setv", c["cid"], kc, r.choice([1, 2, 3])])
             ops.append(["eval", d["cid"], kd, r.choice(SPELLINGS)])
             ops.append(["setv", c["cid"], kc, 0, "single"])       # the (only) dependent 12 // 0 fails while being recomputed
@@ -591,7 +600,7 @@ def gen_ops(g, w, n, weights):
                 rr = r.choice(w["refs"])
                 ops.append(["setref", rr["rid"], g.val()])
             ops.append(["eval", c["cid"], kc, r.choice(SPELLINGS)])
-            ops.append(["recalc", False])
+            ops.append(["recalc", False]); recalc_now[0] = False
             ops.append(["eval", d["cid"], kd, r.choice(SPELLINGS)])
         elif k == "scn_ref" and w["refs"]:
             # directed scenario (found missing by finding D40): evaluate an element, change a reference (its
@@ -633,5 +642,5 @@ def gen_ops(g, w, n, weights):
                     ops.append(["setv", c["cid"], key, g.val()])
             ops.append(["eval", c["cid"], key, r.choice(SPELLINGS)])
         elif k == "recalc":
-            ops.append(["recalc", r.random() < 0.5])
+            ops.append(["recalc", r.random() < 0.5]); recalc_now[0] = ops[-1][1]
     return ops
